@@ -41,7 +41,8 @@ Print Assumptions later_reads_same_object.
 
 Theorem stored_value_read_is_inert :
   forall (w : world) (i n : Z) (v : value),
-    valid_index w i -> alookup n (i_dict (inst_at w i)) = Some v -> step w (Read i n) = (w, v).
+    valid_index w i -> alookup n (i_dict (inst_at w i)) = Some v -> resolve w (inst_at w i) n <> None ->
+    step w (Read i n) = (w, v).
 Proof. exact stored_read. Qed.
 Print Assumptions stored_value_read_is_inert.
 
@@ -50,6 +51,7 @@ Print Assumptions stored_value_read_is_inert.
    that is 1 belongs to an attribute whose value is stored. *)
 Theorem default_method_at_most_once :
   forall (cls : list (list (Z * tdef))) (next0 : Z) (ops : list op) (ins : inst) (n c : Z),
+    0 < next0 -> below next0 (flat_map (fun c => map (fun p => t_doid (snd p)) c) cls) ->
     In ins (w_insts (final (mkW cls [] next0) ops)) -> In (n, c) (i_calls ins) ->
     c = 1 /\ alookup n (i_dict ins) <> None.
 Proof. exact default_method_once. Qed.
@@ -70,19 +72,42 @@ Theorem instance_created_later_is_unaffected :
   forall (ops : list op) (w : world) (c : Z),
     let w1 := final w ops in
     nth_error (w_insts (fst (step w1 (NewInst c)))) (length (w_insts w1)) = Some (new_inst c)
-    /\ w_classes (fst (step w1 (NewInst c))) = w_classes w.
+    /\ w_classes (fst (step w1 (NewInst c))) = w_classes w1.
 Proof.
   intros ops w c. cbn zeta. split.
   - exact (proj1 (new_instance_is_empty (final w ops) c)).
-  - rewrite step_classes. exact (final_classes ops w).
+  - reflexivity.
 Qed.
 Print Assumptions instance_created_later_is_unaffected.
 
-(* ... and the class tables are never written. *)
+(* ... and no definition of any class is ever changed or removed: a class table can only GAIN a row, and only
+   the row of a wildcard name on its first use (next two theorems). *)
+Theorem class_definitions_never_change :
+  forall (ops : list op) (w : world) (c : nat) (n : Z) (t : tdef),
+    alookup n (nth c (w_classes w) []) = Some t -> alookup n (nth c (w_classes (final w ops)) []) = Some t.
+Proof. exact final_classes_keep. Qed.
+Print Assumptions class_definitions_never_change.
+
 Theorem class_table_never_mutated :
-  forall (ops : list op) (w : world), w_classes (final w ops) = w_classes w.
-Proof. exact final_classes. Qed.
+  forall (ops : list op) (w : world), no_wildcard (w_classes w) -> w_classes (final w ops) = w_classes w.
+Proof. exact final_classes_without_wildcard. Qed.
 Print Assumptions class_table_never_mutated.
+
+(* First use of a wildcard name n by instance i (no definition in the instance, none in its class, the class has
+   a prefix trait): the class gains the row (n, t) — t the prefix trait, or the template carrying n's static
+   handlers —, trait_added fires on instance i, and the read proceeds in that world, where n resolves to t. *)
+Theorem wildcard_name_resolved_on_first_use :
+  forall (w : world) (i n : Z) (t : tdef),
+    valid_index w i -> wild_range n = true ->
+    alookup n (i_itraits (inst_at w i)) = None -> alookup n (class_of w (inst_at w i)) = None ->
+    prefix_resolve (class_of w (inst_at w i)) n = Some t ->
+    let ins := inst_at w i in
+    let wr := mkW (update_nth (Z.to_nat (i_cls ins)) (insert_row n t) (w_classes w))
+                  (update_nth (Z.to_nat i) (fun _ => fire_trait_added w ins) (w_insts w)) (w_next w) in
+    resolved w (Read i n) = wr /\ step w (Read i n) = step0 wr (Read i n) /\
+    ((Z.to_nat (i_cls ins) < length (w_classes w))%nat -> resolve wr (inst_at wr i) n = Some t).
+Proof. exact wildcard_first_use. Qed.
+Print Assumptions wildcard_name_resolved_on_first_use.
 
 (* Well-formedness is an invariant ... *)
 Theorem wellformed_worlds_are_closed :
@@ -108,19 +133,126 @@ Theorem law_holds_on_every_history :
 Proof. exact law_on_histories. Qed.
 Print Assumptions law_holds_on_every_history.
 
+(* Introspection (copyable_trait_names, traits(k=v), trait_names(k=v), traits(), a private trait copy whose
+   metadata is then set) changes nothing at all. *)
+Theorem introspection_is_inert :
+  forall (w : world) (i md : Z), valid_index w i -> step w (Introspect i md) = (w, mkV 0 []).
+Proof. exact introspect_inert. Qed.
+Print Assumptions introspection_is_inert.
+
+(* Metadata set on a trait that was added to instance i changes that one definition of that one instance:
+   the class tables, every other instance and every other definition are as before. *)
+Theorem metadata_is_per_instance :
+  forall (w : world) (i n code : Z) (t : tdef),
+    valid_index w i -> alookup n (i_itraits (inst_at w i)) = Some t -> alookup n (class_of w (inst_at w i)) = None ->
+    let ins := inst_at w i in
+    step w (SetMeta i n code)
+    = (mkW (w_classes w)
+           (update_nth (Z.to_nat i)
+              (fun _ => mkI (i_cls ins) (i_dict ins)
+                            (aset n (mkT (t_kind t) (t_content t) (t_scalar t) (t_doid t) (t_nnotif t) (t_static t) (t_cmp t) code)
+                                  (i_itraits ins))
+                            (i_calls ins) (i_log ins) (i_regs ins))
+              (w_insts w))
+           (w_next w),
+       mkV 0 []).
+Proof. exact set_meta_effect. Qed.
+Print Assumptions metadata_is_per_instance.
+
+(* Handing instance src's own container object to the same-named trait of instance i: i stores a new container
+   with the same contents that shares no object with anything in the world; src and the class tables are untouched. *)
+Theorem handed_over_container_is_copied :
+  forall (w : world) (i n src : Z) (t : tdef) (v : value),
+    wf w -> valid_index w i -> valid_index w src -> src <> i ->
+    alookup n (i_dict (inst_at w src)) = Some v -> resolve w (inst_at w i) n = Some t ->
+    let w' := fst (step w (AssignFrom i n src)) in
+    nth_error (w_insts w') (Z.to_nat src) = nth_error (w_insts w) (Z.to_nat src) /\
+    w_classes w' = w_classes w /\
+    exists v', alookup n (i_dict (inst_at w' i)) = Some v' /\
+               vcontent v' = vcontent (fst (assigned_value t (fst (payload_of v)) (snd (payload_of v)) (w_next w))) /\
+               forall x, In x (value_oids v') -> ~ In x (world_oids w).
+Proof. exact assign_from_copies. Qed.
+Print Assumptions handed_over_container_is_copied.
+
+(* What an assignment over a stored value reports, by comparison mode: none = every handler, always;
+   identity = every handler unless the very same scalar object is assigned; equality = unless equal.
+   (First reads are silent in every mode: first_read_is_default_and_silent does not depend on t_cmp.) *)
+Theorem assignment_notifies_by_comparison_mode :
+  forall (w : world) (ins : inst) (n : Z) (content : list Z) (scalar : Z) (t : tdef) (ov : value) (h : Z) (hs : list Z),
+    resolve w ins n = Some t -> hids ins t n = h :: hs -> alookup n (i_dict ins) = Some ov ->
+    let v := fst (assigned_value t content scalar (w_next w)) in
+    let same := (shape_class (v_shape ov) =? shape_class (v_shape v)) && zlist_eqb (vcontent ov) (vcontent v) in
+    let calls := map (fun x => (x, n, vcontent ov, vcontent v)) (h :: hs) in
+    i_log (fst (fst (assign_inst w ins n content scalar)))
+    = i_log ins ++ (if t_cmp t =? 0 then calls
+                    else if (v_shape v =? 0) && same then []
+                    else if (t_cmp t =? 2) && same then [] else calls).
+Proof. exact assign_log_by_mode. Qed.
+Print Assumptions assignment_notifies_by_comparison_mode.
+
+(* Non-vacuity of the four theorems above: comparison modes none / identity / equality on three Int traits with a
+   static handler each, an added trait with metadata, a hand-over of a list between two instances. *)
+Example definitions_nontrivial :
+  let ti c := mkT KConst [5] 0 0 1 true c 0 in
+  let tl := mkT KTraitList [1] 0 1 0 false 2 0 in
+  let ta := mkT KEvent [] 0 0 1 true 2 0 in
+  let cls := [[(0, ti 0); (1, ti 1); (2, ti 2); (3, tl); (-1, ta)]] in
+  let w0 := mkW cls [] 2 in
+  let ops := [NewInst 0; NewInst 0; Read 0 0; Read 0 1; Read 0 2; Assign 0 0 [5] 0; Assign 0 1 [5] 0; Assign 0 2 [5] 0;
+              Assign 0 0 [6] 0; Assign 0 1 [6] 0; Assign 0 2 [6] 0;
+              AddTrait 0 50 (mkT KConst [3] 0 0 0 false 2 0); SetMeta 0 50 7; Introspect 0 100007;
+              Read 0 3; Mutate 0 3 9; AssignFrom 1 3 0; Mutate 0 3 8] in
+  let w := final w0 ops in
+  wf w0 /\ valid_hist w0 ops
+  /\ map i_log (w_insts w)
+     = [[(0, 0, [5], [5]); (0, 0, [5], [6]); (0, 1, [5], [6]); (0, 2, [5], [6])]; []]
+  /\ map (fun i => alookup 3 (i_dict i)) (w_insts w) = [Some (mkV 5 [(2, [1; 9; 8])]); Some (mkV 5 [(3, [1; 9])])]
+  /\ map (fun i => option_map t_label (alookup 50 (i_itraits i))) (w_insts w) = [Some 7; None]
+  /\ w_classes w = cls.
+Proof.
+  cbn zeta. split; [|split].
+  - apply wf_init; [reflexivity|]. apply Forall_forall. intros x Hx. vm_compute in Hx. intuition (subst; reflexivity).
+  - apply valid_histb_ok. vm_compute. reflexivity.
+  - vm_compute. repeat split; reflexivity.
+Qed.
+
+(* Non-vacuity for wildcard names: `_ = Int(7)` with a static handler for name 60.  Instance 0 uses 61 and 60
+   first (its class gains both rows, trait_added fires on it), instance 1 then finds them defined (no trait_added),
+   the handler of 60 is never called for 61, and the declared rows are untouched. *)
+Example wildcard_nontrivial :
+  let wt := mkT KConst [7] 0 0 0 false 2 0 in
+  let t60 := mkT KConst [7] 0 0 1 true 2 0 in
+  let ta := mkT KEvent [] 0 0 1 true 2 0 in
+  let cls := [[(0, mkT KConst [1] 0 0 0 false 2 0); (3060, t60); (-3, wt); (-1, ta)]] in
+  let w0 := mkW cls [] 1 in
+  let ops := [NewInst 0; NewInst 0; Read 0 61; Assign 0 60 [8] 0; Read 1 61; Assign 1 61 [9] 0; Assign 1 60 [7] 0; Read 1 60] in
+  let w := final w0 ops in
+  wf w0 /\ valid_hist w0 ops
+  /\ w_classes w = [[(0, mkT KConst [1] 0 0 0 false 2 0); (60, t60); (61, wt); (3060, t60); (-3, wt); (-1, ta)]]
+  /\ map (fun i => map fst (i_itraits i)) (w_insts w) = [[-1; 60]; []]
+  /\ map i_log (w_insts w) = [[(0, 60, [7], [8])]; []]
+  /\ map i_dict (w_insts w)
+     = [[(61, mkV 0 [(0, [7])]); (60, mkV 0 [(0, [8])])]; [(61, mkV 0 [(0, [9])]); (60, mkV 0 [(0, [7])])]].
+Proof.
+  cbn zeta. split; [|split].
+  - apply wf_init; [reflexivity|]. apply Forall_forall. intros x Hx. vm_compute in Hx. intuition (subst; reflexivity).
+  - apply valid_histb_ok. vm_compute. reflexivity.
+  - vm_compute. repeat split; reflexivity.
+Qed.
+
 (* Non-vacuity: two classes (a subclass overriding a list default), three
    instances, interleaved reads / mutation / handler registration / add_trait:
    the siblings get their own fresh containers with the declared contents, the
    counted default ran once per instance, handlers registered on instance 0 are
    invisible on instances 1 and 2, and the class tables are as declared. *)
 Example history_nontrivial :
-  let tl := mkT KTraitList [1; 2] 0 1 1 true in
-  let tm := mkT KMethod [7] 0 0 0 false in
-  let ta := mkT KEvent [] 0 0 1 true in
-  let cls := [[(0, tl); (1, tm); (-1, ta)]; [(0, mkT KTraitList [3] 0 2 1 true); (1, tm); (-1, ta)]] in
+  let tl := mkT KTraitList [1; 2] 0 1 1 true 2 0 in
+  let tm := mkT KMethod [7] 0 0 0 false 2 0 in
+  let ta := mkT KEvent [] 0 0 1 true 2 0 in
+  let cls := [[(0, tl); (1, tm); (-1, ta)]; [(0, mkT KTraitList [3] 0 2 1 true 2 0); (1, tm); (-1, ta)]] in
   let w0 := mkW cls [] 3 in
   let ops := [NewInst 0; NewInst 1; Read 0 0; Mutate 0 0 9; Register 0 0 1 true; Assign 0 0 [5] 0; Read 0 1; Read 0 1;
-              AddTrait 0 50 (mkT KTraitList [4] 0 0 0 false); NewInst 0; Read 1 0; Read 2 0; Read 2 1] in
+              AddTrait 0 50 (mkT KTraitList [4] 0 0 0 false 2 0); NewInst 0; Read 1 0; Read 2 0; Read 2 1] in
   let w := final w0 ops in
   wf w0 /\ valid_hist w0 ops
   /\ map i_dict (w_insts w)
